@@ -1,5 +1,5 @@
 From Coq Require Import NArith Bool List String.
-From PK Require Import Base.Outcome Base.Finite Gen.Types Impl Gen.All Syn.Ps2 Syn.Lay Syn.Ev Check.C08 Enc.
+From PK Require Import Base.Outcome Base.Finite Gen.Types Impl Gen.All Syn.Ps2 Syn.Lay Syn.Ev Check.Ps2M Check.C08 Enc.
 Import ListNotations.
 Local Open Scope N_scope.
-Eval vm_compute in ("cex"%string, map (fun w => ([w], [9], enc_word (ps_add_word syn_ps2 (Ps2Decoder_mk 0 0) w))) (firstn 5 (panicking_words syn_ps2 (Ps2Decoder_mk 0 0)))).
+Eval vm_compute in ("cex"%string, ps_at_init syn_ps2 [] (fun s0 => map (fun w => ([w], [9], enc_word (ps_add_word syn_ps2 s0 w))) (firstn 5 (panicking_words syn_ps2 s0)))).
